@@ -2,7 +2,11 @@
 # usage: tools/merge_ws.sh NAME "commit message"  — merge /tmp/ws-NAME (verif branch + repo fix commits), then clean up
 N=$1; MSG=$2
 cd /verif || exit 2
-git pull -q --no-edit /tmp/ws-$N/verif ws-$N 2>&1 | grep -i "conflict" | grep -v "MANIFEST.json\|known_findings.json\|evidence/"
+git add -A; git commit -qm "evidence refresh before merging $N" >/dev/null 2>&1
+git fetch -q /tmp/ws-$N/verif ws-$N || { echo "fetch failed"; exit 1; }
+TIP=$(git rev-parse FETCH_HEAD)
+git merge -q --no-edit $TIP 2>&1 | grep -i "conflict\|error\|abort" | grep -v "MANIFEST.json\|known_findings.json\|evidence/"
+git merge-base --is-ancestor $TIP HEAD 2>/dev/null || [ -f .git/MERGE_HEAD ] || { echo "merge of $TIP did not start"; exit 1; }
 tools/merge_resolve.sh | tail -2
 git commit -qm "Merge $N: $MSG" | tail -1
 cd /repo
